@@ -415,7 +415,7 @@ pub(super) fn derive_schema(input: TokenStream) -> syn::Result<TokenStream> {
                         let t = LitStr::new(t, Span::call_site());
                         quote! {
                             #schema
-                                .property(#t, #tag)
+                                .property(#t, ::ohkami::openapi::string().enumerates([#tag]))
                         }
                     }
 
@@ -424,7 +424,7 @@ pub(super) fn derive_schema(input: TokenStream) -> syn::Result<TokenStream> {
                         let c = LitStr::new(c, Span::call_site());
                         quote! {
                             ::ohkami::openapi::object()
-                                .property(#t, #tag)
+                                .property(#t, ::ohkami::openapi::string().enumerates([#tag]))
                                 .property(#c, #schema)
                         }
 
